@@ -23,6 +23,8 @@ from harness.core import LeanDriver
 
 MODULE = "LdarModel.Props.Sim"
 FILE = "LdarModel/Props/Sim.lean"
+MODULE2 = "LdarModel.Props.SimFollowUp"
+FILE2 = "LdarModel/Props/SimFollowUp.lean"
 
 MANIFEST_ENTRY = {
     "text": "Integrated simulation model: one executable Lean function (Sim.simDay / simRun) composing the component models (Emission, Heap, Sensor, Crew, Cost, Queue/Planner, FollowUp, World) into the day loop of LdarSim.run_simulation + Program.do_daily_program_deployment, all randomness and environment as inputs; composition theorems in Props/Sim.lean (sim_tag_chain, sim_row_world, sim_lifecycle, sim_cost_identity / sim_cost_program / sim_repairs_once, sim_zero_coverage, sim_issued_in_months, sim_repair_chain, sim_ledger / sim_reconstruct, sim_mitigation / sim_never_worse, sim_weather / sim_reqs_ok / sim_crews_within_workday, sim_sched_runDays; Sim : Sim_statement; counterexamples for unsorted pending lists), validated against whole real runs: every timeseries column and every emission-record column of every (program, simulation) of generated configurations.",
@@ -40,7 +42,30 @@ RULE = ("whole runs: seeded configurations of harness.wholerun.make_config (plac
         "counted only when the model drew exactly the rolls the run drew")
 
 
-VARIANTS = ["base", "base", "fix", "mix", "two", "slowfu", "slowogi", "all", "sims2"]
+VARIANTS = ["base", "noise", "fix", "mix", "two", "slowfu", "slowogi", "all", "sims2", "dates", "names", "deploy",
+            "ids", "shared", "pool6", "sims6"]
+
+# audit/LESSONS.md item 2: boundary periods put into the generator on purpose (start, end); every end (month, day)
+# is not before the start's, so no trailing partial year (the planner crash recorded under C06)
+BOUNDARY_PERIODS = [((2024, 1, 1), (2024, 12, 31)),     # a complete leap year: day-of-year 366 with weather
+                    ((2023, 3, 15), (2024, 12, 31)),    # not starting Jan 1, ends Dec 31 of a leap year
+                    ((2023, 1, 1), (2024, 12, 31)),     # New Year inside the run
+                    ((2022, 7, 4), (2024, 7, 4)),       # neither Jan 1 nor Dec 31, Feb 29 inside
+                    ((2024, 2, 27), (2024, 3, 2)),      # straddles Feb 29
+                    ((2023, 12, 30), (2023, 12, 31)),   # two days, ends Dec 31
+                    ((2023, 6, 10), (2023, 6, 10)),     # one day
+                    ((2023, 11, 1), (2024, 11, 30))]    # a survey season straddling New Year
+
+
+def rename_methods(cfg, mapping):
+    """LESSONS 3: method names with underscores / digits / prefixes of each other"""
+    cfg["methods"] = {mapping.get(k, k): v for k, v in cfg["methods"].items()}
+    for m in cfg["methods"].values():
+        fu = m.get("follow_up")
+        if fu and fu.get("preferred_method") in mapping:
+            fu["preferred_method"] = mapping[fu["preferred_method"]]
+    for p in cfg["programs"]:
+        p["methods"] = [mapping.get(x, x) for x in p["methods"]]
 
 
 def make_variant(rng, kind, quick):
@@ -52,9 +77,17 @@ def make_variant(rng, kind, quick):
 
     from harness import wholerun as W
 
+    from datetime import date
+
     ov = {}
     if quick:
         ov["ndays"] = rng.choice([120, 200, 400])
+    if kind == "dates":
+        st, en = rng.choice(BOUNDARY_PERIODS)
+        ov["start"] = list(st)
+        ov["ndays"] = (date(*en) - date(*st)).days + 1
+    if kind in ("sims6", "pool6"):
+        ov.update({"ndays": 120, "n_sites": 4})
     cfg = W.make_config(rng, **ov)
     M = cfg["methods"]
     none = {"name": "P_none", "methods": []}
@@ -80,6 +113,56 @@ def make_variant(rng, kind, quick):
         cfg["programs"] = [{"name": "P_all", "methods": ["OGI", "AIR", "OGI_FU", "FIX", "OGI_FU2"]}, none]
     elif kind == "sims2":
         cfg["n_sims"] = 2
+    elif kind == "dates":
+        cfg["consider_weather"] = True
+        cfg["weather_mode"] = "mixed"
+        if len(cfg["programs"]) < 4:
+            cfg["programs"].append({"name": "P_fix", "methods": ["FIX", "OGI_FU2"]})
+    elif kind == "names":
+        rename_methods(cfg, {"OGI": "O_G1", "AIR": "AIR_2_x", "OGI_FU": "O_G1_FU", "FIX": "FIX_", "OGI_FU2": "O_G1_FU_2"})
+    elif kind == "deploy":
+        # `<method>_site_deployment` columns: each method is NOT deployed at some sites
+        ids = [st["id"] for st in cfg["sites"]]
+        cfg["site_extra_cols"] = {
+            "OGI_site_deployment": {i: ("False" if k % 3 == 0 else "True") for k, i in enumerate(ids)},
+            "AIR_site_deployment": {i: ("False" if k % 3 == 1 else "True") for k, i in enumerate(ids)},
+            "FIX_site_deployment": {i: ("False" if k % 2 == 1 else "True") for k, i in enumerate(ids)}}
+        if len(cfg["programs"]) < 4:
+            cfg["programs"].append({"name": "P_fix", "methods": ["FIX", "OGI_FU2"]})
+    elif kind == "ids":
+        # unsorted integer ids / string ids whose natural and lexicographic orders differ
+        pool_ = ([33, 2, 10, 7, 101, 1, 9, 20, 5, 11] if rng.random() < 0.5 else
+                 ["s10", "s9", "a_2", "10", "s1", "site 3", "S10", "s_11", "9", "s2"])
+        for st, i in zip(cfg["sites"], pool_):
+            st["id"] = i
+    elif kind == "shared":
+        # two programs share a method label whose coverage lies in (0, 1) (sticky per-emission rolls must not
+        # leak from one program's copy of the scenario into the other's)
+        M["OGI"].update({"spatial": 0.5})
+        M["AIR"].update({"spatial": 0.5, "temporal": 0.75})
+        cfg["programs"] = [none, {"name": "P_OGI", "methods": ["OGI"]}, {"name": "P_OGIb", "methods": ["OGI"]},
+                           {"name": "P_air", "methods": ["AIR", "OGI_FU"]}, {"name": "P_airb", "methods": ["AIR", "OGI_FU"]}]
+    elif kind == "pool6":
+        # pool mode, 6 programs on 1 process: Pool.starmap pickles several program tasks in one chunk
+        cfg["programs"] = [none, {"name": "P_OGI", "methods": ["OGI"]}, {"name": "P_air", "methods": ["AIR", "OGI_FU"]},
+                           {"name": "P_fix", "methods": ["FIX", "OGI_FU2"]}, {"name": "P_OGIb", "methods": ["OGI"]},
+                           {"name": "P_airb", "methods": ["AIR", "OGI_FU"]}]
+        cfg["_run"] = {"debug": False, "processes": 1}
+    elif kind == "sims6":
+        cfg["n_sims"] = 6            # batches of 5 + 1
+    elif kind == "noise":
+        # non-zero quantification error on a grid on which the float arithmetic is exact (multiples of 25 %):
+        # "sample" type drawing from a file, degenerate "uniform" / "default" (normal with sd 0) types
+        cfg["extra_inputs"] = {"qerr.csv": "err,other\n" + "\n".join(f"{v},0" for v in
+                               (-100, -75, -50, -25, 0, 0, 25, 50, 100, 150)) + "\n"}
+        M["OGI"].update({"qe": ["qerr.csv", "err"], "qe_type": "sample"})
+        M["AIR"].update({"qe": ["qerr.csv", "err"], "qe_type": "sample", "mdl": 0.5})
+        M["AIR"]["follow_up"].update({"threshold": rng.choice([0.0, 1.0, 2.0]), "instant_threshold": rng.choice([None, 4.0])})
+        M["OGI_FU"].update({"qe": [rng.choice([-50.0, 25.0, 50.0])] * 2, "qe_type": "uniform"})
+        M["FIX"].update({"qe": [rng.choice([-25.0, 50.0])] * 2, "qe_type": "default"})
+        M["OGI_FU2"].update({"qe": ["qerr.csv", "err"], "qe_type": "sample"})
+        if len(cfg["programs"]) < 4:
+            cfg["programs"].append({"name": "P_fix", "methods": ["FIX", "OGI_FU2"]})
     cfg["sim_trace"] = True
     cfg["_variant"] = kind
     return cfg
@@ -128,16 +211,23 @@ def mutate_selftest(case):
 def analyse(ctx, cfg, res):
     key = {"cfg_seed": cfg.get("_verif_seed"), "ndays": res.ndays}
     if res.rc != 0:
+        # LESSONS 7: a crashed whole run is never skipped silently; the generated shapes do not crash the
+        # unchanged simulator, so the configuration itself is the failing input
         ctx.count("wholerun_rc_nonzero")
         ctx.note(f"whole-run configuration {key} ended with rc={res.rc}: {res.log[-300:]}")
+        ctx.violate("SIM:run-crashed", "the real simulator crashed on a generated configuration: "
+                    + (res.log.strip().splitlines() or ["?"])[-1][:200],
+                    {"cfg": {k: v for k, v in cfg.items()}, "rc": res.rc, "log_tail": res.log[-1500:]})
         return
     for tr in res.trace:
         kind = S.program_kind(cfg, tr["prog"])
         status, case, diffs, info = run_case(cfg, res, tr)
         inp = {"cfg": {k: v for k, v in cfg.items()}, "prog": tr["prog"], "sim": tr["sim"]}
         if status == "unsupported":
+            # outside the grids / shapes the adapter can feed to the model exactly: reported, not skipped silently
             ctx.count(f"unsupported:{kind}")
             ctx.note(f"unsupported case {key} {tr['prog']}: {info}")
+            ctx.broke(f"sim/unsupported:{kind}", f"{key} {tr['prog']}: {info}")
             continue
         ctx.evaluations += 1
         ctx.traces += 1
@@ -145,6 +235,7 @@ def analyse(ctx, cfg, res):
         ctx.count("days", case.N)
         ctx.count("emissions", len(case.ems))
         ctx.count("rolls", case.n_rolls)
+        ctx.count("nonzero_quantification_shifts", case.n_shifts)
         if not info["wf"]:
             ctx.count("scenario_not_wellformed")
             ctx.disagree("sim/scenario-not-wellformed", inp, "wfWorld = false", None)
@@ -152,6 +243,12 @@ def analyse(ctx, cfg, res):
             ctx.count(f"DIFF:{kind}")
             by = collections.Counter(d[0] for d in diffs)
             ctx.disagree(f"sim/{kind}", inp, {"columns": dict(by), "first": [str(d)[:300] for d in diffs[:5]]}, None)
+            # the configuration is a concrete failing input: on it the real outputs differ from the integrated
+            # model (replay: ./check SIM --replay <file> re-runs it and prints the differing columns)
+            first = sorted(by)[0]
+            ctx.violate(f"SIM:differs:{first.split(':')[0]}",
+                        f"real run differs from the integrated model ({kind}): " + ", ".join(sorted(by))[:300],
+                        dict(inp, first=[str(d)[:300] for d in diffs[:5]]))
         else:
             ctx.count(f"agree:{kind}")
             rows = info["rows"]
@@ -173,11 +270,17 @@ def run(ctx):
     ctx.rule = RULE
     ctx.assumptions.append("SIM: wrapper events of install_sim_wrappers are observation only (they read values the "
                            "simulator computed, never draw random numbers)")
+    ctx.assumptions.append("SIM trusted inputs: the planners' evenly spaced plan dates (`_generate_evenly_spaced_dates`, "
+                           "read from the real planners via the 'sched' event; Model/Planner.lean takes them as an input list, "
+                           "C06 owns them), crew counts / daily capacity computed by the Method constructor; the calendar is "
+                           "computed by the model (Sim.dateOf) and compared with datetime on every run")
     core.lean_stage(ctx, MODULE, FILE, drivers=["drv_sim"])
-    cfgs = configs(ctx, ctx.pick(9, 135))
+    core.lean_stage(ctx, MODULE2, FILE2)          # C09 lifted to the integrated model
+    cfgs = configs(ctx, ctx.pick(16, 128))
 
     def one(cfg):
-        return cfg, W.run_config(cfg)
+        r = cfg.get("_run") or {}
+        return cfg, W.run_config(cfg, debug=r.get("debug", True), processes=r.get("processes", 1))
 
     with concurrent.futures.ThreadPoolExecutor(max_workers=ctx.pick(6, 8)) as ex:
         results = list(ex.map(one, cfgs))
@@ -209,7 +312,13 @@ def replay(ctx, data):
         print(str(data)[:2000])
         return 1
     cfg = inp["cfg"]
-    res = W.run_config(cfg)
+    r = cfg.get("_run") or {}
+    res = W.run_config(cfg, debug=r.get("debug", True), processes=r.get("processes", 1))
+    if res.rc != 0:
+        print("the real simulator crashed on this configuration (rc=%d):" % res.rc)
+        print(res.log[-1500:])
+        res.cleanup()
+        return 1
     try:
         rc = 0
         for tr in res.trace:
